@@ -526,3 +526,28 @@ fn run(ctx: &mut Ctx, si: usize, _case: u64) {
         }
     }
 }
+
+/// Judge every data-returning call on arbitrary file bytes (libFuzzer target `ranges`).
+pub fn judge_bytes(ctx: &mut Ctx, buf: &[u8]) {
+    ctx.set_input(buf);
+    let f = match open_slice(buf) {
+        Ok(f) => f,
+        Err(_) => return,
+    };
+    let enc = Enc { c64: f.ehdr.class == elf::file::Class::ELF64, big: buf[5] == 2 };
+    if let Some(shdrs) = f.section_headers() {
+        for sh in shdrs.iter().take(64) {
+            if !judge_section(ctx, &f, buf, enc, &sh, "fuzz input") {
+                return;
+            }
+        }
+    }
+    if let Some(phdrs) = f.segments() {
+        for ph in phdrs.iter().take(32) {
+            if !judge_segment(ctx, &f, buf, enc, &ph, "fuzz input") {
+                return;
+            }
+        }
+    }
+    judge_tables(ctx, &f, buf, enc, "fuzz input");
+}
